@@ -1,13 +1,14 @@
 /* C06 driver: the whole device, connected and registered through the real proto/srpc/devconn code, timers never
  * fire (no ADV): timer expiries, iterates and button callbacks are explicit events, so the model needs no schedule.
  * CFG as in c07_core.h plus rest = ninputs (gpio type flags relaygpio channel)*
- * Events: REG | ITER | SETV ch v dur sender | GRP ch v dur | BTN idx active | TICK dt_us | TIME2 ch ms
+ * Events: REG | ITER | SETV ch v dur sender | GRP ch v dur | BTN idx active | TICK dt_us | TIME2 ch ms | CHCFG ch func type size ms (core)
+ *         | SENTRES r r ... (devsim: results of the next espconn_sent calls, 0 afterwards)
  * Outputs: GPIO t pin lvl | VAL t ch v | RES t ch sender ok | EXT t ch remaining target sender | WOTH t call_id
- *          DROP t call_id (a call refused by the full out-queue) | Q t queued_calls buffered_bytes (after every event) */
+ *          DROP t call_id (a call refused by the full out-queue) | Q t queued_calls buffered_bytes staged_bytes (after every event) */
 #include "c07_core.h"
 void supla_esp_countdown_timer_cb(void *ptr);
 void supla_esp_devconn_connect_cb(void *arg);
-void v6_set_before_call(void *srpc, _func_srpc_event_BeforeCall f); int v6_queue_size(void);
+void v6_set_before_call(void *srpc, _func_srpc_event_BeforeCall f); int v6_queue_size(void); int v7_send_buffer_len(void);
 static int c6_ready = 0;
 static void c6_cfg(void) {
   int i = c7_cfgpos; int n = i < c7_ncfgints ? (int)c7_cfgints[i++] : 0;
@@ -19,7 +20,7 @@ static void c6_cfg(void) {
 }
 static void c6_q(void) {
   void *srpc = vd_srpc();
-  vout("Q %llu %d %u :", v_now, srpc ? vs_out_queue_count(srpc) : 0, srpc ? vp_out_data_size(vs_proto(srpc)) : 0);
+  vout("Q %llu %d %u %d :", v_now, srpc ? vs_out_queue_count(srpc) : 0, srpc ? vp_out_data_size(vs_proto(srpc)) : 0, v7_send_buffer_len());
 }
 static void c6_before_call(void *srpc, unsigned _supla_int_t call_id, void *user) {
   (void)user; if (c6_ready && vs_out_queue_count(srpc) >= v6_queue_size()) vout("DROP %llu %u :", v_now, call_id);
@@ -44,6 +45,7 @@ static int c6_event(char *l) {
     ds_regresult(SUPLA_RESULTCODE_TRUE, ACTIVITY_TIMEOUT);
     for (int i = 0; i < 200; i++) supla_esp_devconn_iterate(NULL);
     v6_set_before_call(vd_srpc(), c6_before_call);
+    v_sent_n = 0; v_sent_i = 0;          /* the link is idle after the handshake */
     c6_ready = 1; return 1;
   }
   if (!strncmp(l, "SETV ", 5)) {
